@@ -128,6 +128,26 @@ def run_case(case):
                         break
             except Exception as e:
                 vs.append(viol(pre + "|generator_raises", f"{type(e).__name__}: {str(e)[:100]}", case))
+        # one-molecule views: the right atoms, and a caller who modifies the returned universe must not change the PT
+        if not vs and len(arr) <= 2000:
+            try:
+                for second, sl in ((True, slice(n1, None)), (False, slice(0, n1))):
+                    Uo = pt.get_one_molecule_pt_as_universe(return_mol2=second)
+                    Fo = [np.asarray(ts.positions, dtype=float).copy() for ts in Uo.trajectory]
+                    if len(Fo) != len(frames) or any(a.shape != f[sl].shape or np.abs(a - f[sl]).max() > TOL
+                                                      for a, f in zip(Fo, frames)):
+                        vs.append(viol(pre + f"|one_molecule|mol2={second}", "one-molecule pseudotrajectory is not the "
+                                       "corresponding slice of the full one", case))
+                        break
+                    for ts in Uo.trajectory:
+                        ts.positions[:] = ts.positions + 5.0
+                    again = [np.asarray(ts.positions, dtype=float).copy() for ts in pt.get_pt_as_universe().trajectory]
+                    if any(np.abs(a - f).max() > TOL for a, f in zip(again, frames)):
+                        vs.append(viol(pre + f"|one_molecule_alias|mol2={second}", "modifying the returned one-molecule universe "
+                                       "changed the frames of the pseudotrajectory (shared memory)", case))
+                        break
+            except Exception as e:
+                vs.append(viol(pre + "|one_molecule_raises", f"{type(e).__name__}: {str(e)[:100]}", case))
         # history part
         if not vs:
             U2 = pt.get_pt_as_universe()
@@ -182,7 +202,9 @@ def ptwriter_case(case):
             return np.array([np.asarray(ts.positions, dtype=float).copy() for ts in U.trajectory])
 
         for L in (1, 2, 3):
-            for word in itertools.product(("ws", "pt", "wf"), repeat=L):
+            for word in itertools.product(("ws", "pt", "wf", "wd"), repeat=L):
+                if L == 3 and word.count("wd") > 1:
+                    continue
                 words_run += 1
                 key = f"C10|ptwriter|m1={m1}|m2={m2}|word={'>'.join(word)}"
                 try:
@@ -196,6 +218,21 @@ def ptwriter_case(case):
                                 vs.append(viol(key + f"|step={i}|pt_universe", "writer's pseudotrajectory frames are not the "
                                                "prescribed placements after this call history", dict(case, word=list(word)),
                                                observed=float(np.abs(F - want).max()) if F.shape == want.shape else list(F.shape)))
+                                break
+                        elif ev == "wd":
+                            # one file per frame, names not zero padded (0.xyz, 1.xyz, ... 10.xyz ...)
+                            dd = os.path.join(d, f"dir_{words_run}_{i}")
+                            os.makedirs(dd, exist_ok=True)
+                            paths = [os.path.join(dd, f"{k}.xyz") for k in range(len(arr))]
+                            w.write_full_pt_in_directory(paths, os.path.join(dd, "structure.gro"))
+                            for k in range(len(arr)):
+                                Fk = np.asarray(mda.Universe(paths[k]).atoms.positions, dtype=float)
+                                if Fk.shape != want[k].shape or np.abs(Fk - want[k]).max() > 2e-4:
+                                    vs.append(viol(key + f"|step={i}|directory_file|frame={k}", f"file {k}.xyz written in directory "
+                                                   "mode does not hold the placement of grid row k", dict(case, word=list(word))))
+                                    break
+                            shutil.rmtree(dd, ignore_errors=True)
+                            if vs:
                                 break
                         else:
                             tp, sp = os.path.join(d, f"t_{i}.xyz"), os.path.join(d, f"st_{i}.gro")
@@ -256,7 +293,7 @@ def run(ctx):
     rep.coverage = {
         "states": frames, "transitions": frames, "traces_validated_against_impl": len(cs),
         "samples": collect_samples([f"{c['m1']}+{c['m2']} on {c['array']['name']}" for c in cs], 5),
-        "ptwriter_call_histories": 39 * len(wcs),
+        "ptwriter_call_histories": (4 + 16 + 54) * len(wcs),
         "evaluations": frames, "distinct_nontrivial": len(cs),
         "max_abs_deviation_A": max(r.get("worst", 0) for r in res),
         "rule": "molecule pairs x arrays (3 real grids + non-grid array of 12 positions x (24 cube rotations + 30 generic "
